@@ -207,20 +207,28 @@ class MomentBlock:
     def shapes(self, tier):
         out = [dict(la=1, lb=1, orders=[[0, 0, 0], [1, 0, 2], [0, 0, 0]]), dict(la=2, lb=0, orders=[[2, 1, 0]]),
                dict(la=0, lb=2, orders=[[0, 0, 3], [1, 1, 1]]), dict(la=0, lb=0, orders=[[4, 0, 0], [0, 4, 4]])]
+        # generalized shells with different segment counts on the two sides, either order of angular momenta
+        out += [dict(la=0, lb=1, K=[2, 1], M=[2, 1], orders=[[1, 0, 0], [0, 1, 1]]), dict(la=1, lb=0, K=[1, 2], M=[1, 2], orders=[[0, 0, 2]]),
+                dict(la=1, lb=1, K=[1, 2], M=[2, 3], orders=[[0, 1, 0]])]
         if tier == "thorough":
             for la in range(0, 5):
                 for lb in range(0, 5):
                     out.append(dict(la=la, lb=lb, orders=[[(la + lb) % 5, 2, 0], [0, 1, 4]]))
             out.append(dict(la=2, lb=2, orders=[[i, j, k] for i in (0, 3) for j in (1, 4) for k in (0, 2)]))
+            out += [dict(la=0, lb=2, K=[2, 2], M=[1, 2], orders=[[2, 0, 1]]), dict(la=2, lb=1, K=[2, 1], M=[3, 1], orders=[[1, 1, 0]])]
         return out
 
     def run(self, shape, M):
         mom = M.mods["gbasis.integrals.moment"]
-        s1, s2 = sym_shell_pair(M, shape["la"], shape["lb"], 1, 1, 1, 1)
-        # origin relative to the weighted centre keeps every 1-D quantity a single term
-        a, b = s1.exps[0], s2.exps[0]
-        P = (s1.coord * a + s2.coord * b) / (a + b)
-        C = M.array(P - M.vec("X", 3))
+        K, Mseg = shape.get("K", [1, 1]), shape.get("M", [1, 1])
+        s1, s2 = sym_shell_pair(M, shape["la"], shape["lb"], K[0], K[1], Mseg[0], Mseg[1])
+        if K == [1, 1]:
+            # origin relative to the weighted centre keeps every 1-D quantity a single term
+            a, b = s1.exps[0], s2.exps[0]
+            P = (s1.coord * a + s2.coord * b) / (a + b)
+            C = M.array(P - M.vec("X", 3))
+        else:
+            C = M.vec("X", 3)
         orders = np.array(shape["orders"])
         fr = Frame(C=C, orders=orders, c1=s1.coord, e1=s1.exps, d1=s1.coeffs, c2=s2.coord, e2=s2.exps, d2=s2.coeffs)
         out = mom.Moment.construct_array_contraction(s1, s2, C, orders)
